@@ -103,8 +103,14 @@ def gen(rng, tier, info, ifaces=(0, 1, 2, 7)):
         small = rng.chance(2, 3)
         pc, m, lw, lh, cmax = drawgen.config(rng, info, ifaces=ifaces, models=small_models if small else None)
         nops = rng.range(1, 4)
-        pc["ops"] = [(-1, op_any(rng, lw, lh, cmax, small)) for _ in range(nops)]
         o = pc["opts"]
+        ops = []
+        if rng.chance(1, 3):
+            # a run-time orientation change first: clipping and window offsets must follow it
+            r2, m2 = rng.below(4), rng.below(2)
+            ops.append((-1, ("so", r2, m2)))
+            lw, lh = (o["w"], o["h"]) if r2 in (0, 2) else (o["h"], o["w"])
+        pc["ops"] = ops + [(-1, op_any(rng, lw, lh, cmax, small)) for _ in range(nops)]
         pc["tags"] = ["rot%d%s" % (o["rot"], "m" if o["mir"] else ""), "batch" if pc["batch"] else "nobatch", pc["md"]] + \
                      ["op:" + op[0] for _, op in pc["ops"]]
         pc["nontrivial"] = any(has_oob(op, lw, lh) for _, op in pc["ops"])
